@@ -832,62 +832,81 @@ def run_parallel(binary, lines, nproc, timeout=2400, args=()):
 
 
 def run_impl(himpl, lines, timeout):
-    """run the implementation harness on the case lines.  Returns (outputs, status): outputs[i] is the line of case i,
-    "DOES-NOT-RETURN" when the case exceeded its CPU budget twice (20 s inside the stream, then 60 s alone), None when it was
-    not reached; status is "ok", "timeout" (wall-clock limit of the whole stream: inconclusive for the cases not reached) or
-    an error text (harness died for another reason)."""
+    """run the implementation harness (ONE process at a time: the caps below are global) on the case lines.
+    Returns (outputs, status): outputs[i] is the line of case i; "DOES-NOT-RETURN" when the case exceeded its CPU budget twice
+    (10 s inside the stream, then 30 s alone); "CRASHED rc=.." when the process died in it; "SKIPPED" when its call form is no
+    longer driven (after the first confirmed does-not-return, or 4 crashes, of that form); None when it was not reached.
+    Caps per run: 3 confirmations, 6 first-stage overruns, 12 crashes, then the stream stops (status "hang-limit").
+    status: "ok", "hang-limit", "timeout" (wall-clock limit of the whole stream) or an error text."""
     out = [None] * len(lines)
-    pos, restarts, t_end = 0, 0, time.time() + timeout
-    while pos < len(lines):
+    form = [l.split(None, 1)[0] if l.strip() else "" for l in lines]
+    dead, crashes = set(), {}
+    n_confirm = n_over = n_crash = 0
+    pos, t_end = 0, time.time() + timeout
+    def nxt(p):
+        while p < len(lines) and form[p] in dead:
+            out[p] = "SKIPPED"; p += 1
+        return p
+    while True:
+        pos = nxt(pos)
+        if pos >= len(lines):
+            return out, "ok"
         left = t_end - time.time()
         if left <= 5:
             return out, "timeout"
-        rc, o, err = vf.run_lines(himpl, "".join(lines[pos:]), timeout=left)
+        idx = [i for i in range(pos, len(lines)) if form[i] not in dead]
+        for i in range(pos, len(lines)):
+            if form[i] in dead: out[i] = "SKIPPED"
+        rc, o, err = vf.run_lines(himpl, "".join(lines[i] for i in idx), timeout=left)
         stuck = rc == 42 and o and o[-1].strip() == "DOES-NOT-RETURN"
         good = o[:-1] if stuck else o
         if rc == 124 and good:
             good = good[:-1]          # the last line of a killed process may be torn
-        out[pos:pos + len(good)] = good
-        pos += len(good)
-        if rc == 0 and pos == len(lines):
+        good = good[:len(idx)]
+        for j, l in enumerate(good):
+            out[idx[j]] = l
+        if rc == 0 and len(good) == len(idx):
             return out, "ok"
         if rc == 124 and "[timeout]" in err:
             return out, "timeout"
-        if stuck and pos < len(lines):
-            # the case at `pos` did not return within the CPU budget: once more, alone, with a larger budget
+        if len(good) >= len(idx):
+            return out, "harness failed (rc=%s) after the last case %s" % (rc, err[-200:])
+        cur = idx[len(good)]           # the case the process was in
+        pos = cur + 1
+        if stuck:
+            n_over += 1
             env_old = os.environ.get("C11_CASE_CPU")
-            os.environ["C11_CASE_CPU"] = "60"
+            os.environ["C11_CASE_CPU"] = "30"       # once more, alone, with a larger budget
             try:
-                rc1, o1, e1 = vf.run_lines(himpl, lines[pos], timeout=max(30, t_end - time.time()))
+                rc1, o1, e1 = vf.run_lines(himpl, lines[cur], timeout=max(60, t_end - time.time()))
             finally:
                 if env_old is None: os.environ.pop("C11_CASE_CPU", None)
                 else: os.environ["C11_CASE_CPU"] = env_old
             if rc1 == 0 and len(o1) == 1:
-                out[pos] = o1[0]
+                out[cur] = o1[0]
             elif rc1 == 42:
-                out[pos] = "DOES-NOT-RETURN"
+                out[cur] = "DOES-NOT-RETURN"
+                n_confirm += 1
+                dead.add(form[cur])     # this call form is not driven any more in this run
             elif rc1 == 124:
                 return out, "timeout"
             else:
-                return out, "harness died on case %d alone (rc=%s) %s" % (pos, rc1, e1[-200:])
-            pos += 1
-            restarts += 1
-            if restarts >= 3 and sum(1 for x in out if x == "DOES-NOT-RETURN") >= 3:
-                return out, "hang-limit"       # three concrete non-returning inputs are enough; the rest is not run
-            if restarts > 25:
-                return out, "more than 25 cases needed a second run"
-            continue
-        if rc not in (0, 42, 124) and pos < len(lines):
-            # the process died on the case at `pos` (signal / abort, e.g. a GMP division by zero): a concrete failing input;
-            # go on behind it (three such inputs are enough)
-            out[pos] = "CRASHED rc=%s" % rc
-            pos += 1
-            restarts += 1
-            if sum(1 for x in out if x is not None and x.startswith("CRASHED")) >= 3:
+                out[cur] = "CRASHED rc=%s" % rc1
+                n_crash += 1
+            if n_confirm >= 3 or n_over >= 6:
                 return out, "hang-limit"
             continue
-        return out, "harness failed (rc=%s, %d/%d lines) %s" % (rc, pos, len(lines), err[-300:])
-    return out, "ok"
+        if rc not in (0, 42, 124):
+            # the process died in this case (signal / abort / uncaught exception): a concrete failing input; go on behind it
+            out[cur] = "CRASHED rc=%s" % rc
+            n_crash += 1
+            crashes[form[cur]] = crashes.get(form[cur], 0) + 1
+            if crashes[form[cur]] >= 4:
+                dead.add(form[cur])
+            if n_crash >= 12:
+                return out, "hang-limit"
+            continue
+        return out, "harness failed (rc=%s, case %d of %d) %s" % (rc, cur, len(lines), err[-300:])
 
 
 def main(tier, replay=None):
@@ -1050,14 +1069,17 @@ def main(tier, replay=None):
     impl_lines = ["%s %s\n" % (c[0], " ".join(str(x) for x in c[2])) for c in allc]
     iout, istatus = run_impl(himpl, impl_lines, 2400)
     inconclusive = []
+    n_skip = sum(1 for x in iout if x == "SKIPPED")
+    if n_skip:
+        inconclusive.append("%d cases of call forms that were stopped after a confirmed does-not-return / 4 crashes were not driven" % n_skip)
     if istatus == "timeout":
         # a wall-clock time-out of our own tooling (machine load) is an inconclusive stream, not a violation: the cases that
         # were answered are judged, the others are counted as NOT compared (floors below)
-        n_done = sum(1 for x in iout if x is not None)
+        n_done = sum(1 for x in iout if x is not None and x != "SKIPPED")
         inconclusive.append("implementation harness: wall-clock limit 2400 s reached after %d of %d cases" % (n_done, len(allc)))
     elif istatus == "hang-limit":
-        n_done = sum(1 for x in iout if x is not None)
-        inconclusive.append("implementation harness: stopped after three cases that do not return / crash (reported as failing inputs); %d of %d cases run" % (n_done, len(allc)))
+        n_done = sum(1 for x in iout if x is not None and x != "SKIPPED")
+        inconclusive.append("implementation harness: stream stopped at the cap of hanging / crashing cases (3 confirmed does-not-return, 6 first-stage overruns or 12 crashes; reported as failing inputs); %d of %d cases run" % (n_done, len(allc)))
     elif istatus != "ok":
         bad = next((allc[i] for i, x in enumerate(iout) if x is None), None)
         chk.broke("implementation %s; next case: %s" % (istatus, bad and (bad[0], bad[2])))
@@ -1080,8 +1102,11 @@ def main(tier, replay=None):
     for i, (v, op, ia, ma, frac, fclass, mclass, pc) in enumerate(allc):
         case = {"variant": v, "args": [str(x) for x in ia]}
         st("variant/" + v); st("modulus/" + mclass); st("residue/" + ("poly-" if pc else "") + fclass)
-        if iout[i] is None:           # not reached before the wall-clock limit: not compared, not counted
-            st("not-compared/harness-time-out")
+        if iout[i] is None:           # not reached before the wall-clock limit / the hang cap: not compared, not counted
+            st("not-compared/not-reached")
+            continue
+        if iout[i] == "SKIPPED":      # its call form is no longer driven after a confirmed hang / 4 crashes: not compared
+            st("not-compared/form-stopped")
             continue
         if i % 1499 == 0:
             chk.sample({"variant": v, "args": [str(x) for x in ia][:24], "impl": iout[i][:200]})
@@ -1092,7 +1117,7 @@ def main(tier, replay=None):
             continue
         if iout[i].strip() == "DOES-NOT-RETURN":
             site = ("polyratrecon:" + op[5:]) if pc is not None else ("ratrecon:" + VARIANTS[v][0])
-            chk.fail_input(site, "does-not-return", case, "the call returns", "no return within 20 s of CPU time in the stream and 60 s alone",
+            chk.fail_input(site, "does-not-return", case, "the call returns", "no return within 10 s of CPU time in the stream and 30 s alone",
                            "the call does not return (per-case CPU watchdog of the harness)")
             continue
         if pc is not None:
